@@ -7,6 +7,7 @@
 #include "simrun.h"
 
 #include <algorithm>
+#include <map>
 #include <optional>
 
 namespace dsplib {
@@ -48,12 +49,16 @@ struct Model {
 
     bool seen[2]{false, false};
     int64_t n_request_moved{0};
+    int first_id{-1}, first_n{0};                       // first cache access of the current op (its top-level length)
+    std::map<std::string, std::pair<int, int>> learned;   // request -> the (cache, length) it asked for when it last consulted a cache
 
-    // request level: a completed top-level request for a cached length is a USE of that length, whether or not the
-    // implementation consulted its cache for it (a shortcut in front of the cache must not make the cache forget the use).
-    // On an implementation that looks the length up, the events above have already put it in front and this is a no-op.
+    // request level: a completed top-level request is a USE of the length it stands for, whether or not the implementation
+    // consulted its cache this time (a shortcut in front of the cache must not make the cache forget the use). WHICH
+    // (cache, length) a request stands for is not assumed: it is learned from the first cache access the same request made
+    // when it last consulted a cache in this thread. On an implementation that looks every request up, the events have
+    // already put that length in front and this is a no-op.
     void request(int id, int n) {
-        if (id < 0 || id > 1 || !error.empty() || n == 1 || n == 2 || n == 4 || n == 8 || n < 1) {
+        if (id < 0 || id > 1 || !error.empty()) {
             return;
         }
         Lru& l = c[id];
@@ -78,6 +83,10 @@ struct Model {
     void event(int id, int n, int ev) {
         if (id < 0 || id > 1 || !error.empty()) {
             return;
+        }
+        if (first_id < 0) {
+            first_id = id;
+            first_n = n;
         }
         Lru& l = c[id];
         if (!seen[id]) {
@@ -531,6 +540,7 @@ Result exec(const Plan& pl) {
             set_cur_opf("C10 thread %d op %zu %s %lld", me, i, op.kind.c_str(), static_cast<long long>(op.iarg(0)));
             md.misses_top = 0;
             md.depth = 0;
+            md.first_id = -1;
             std::vector<double> got;
             std::vector<double> ref;
             std::function<std::vector<double>()> ref_fn;   // the same request, to be executed in a fresh thread
@@ -609,16 +619,17 @@ Result exec(const Plan& pl) {
                 fail("C10:exception", fmt("thread %d op %zu %s(%lld): exception: %s", me, i, op.kind.c_str(), static_cast<long long>(op.iarg(0)), e.what()));
             }
             // phase 2: refinement, before anything else touches a cache
-            if (got.size() >= 1 && !(got.size() == 2 && got[0] == -7777.0)) {
-                if (op.kind == "fft" || op.kind == "ifft") {
-                    md.request(0, int(op.iarg(0)));
-                } else if (op.kind == "rfft") {
-                    md.request(1, int(op.iarg(0)));
-                } else if (op.kind == "irfft") {
-                    md.request(0, int(op.iarg(0)) / 2);
-                } else if (op.kind == "mkplan" && op.iarg(1) != PK_CZT) {
-                    const int kind = int(op.iarg(1));
-                    md.request(kind == PK_FFTR ? 1 : 0, kind == PK_IFFTR ? int(op.iarg(2)) / 2 : int(op.iarg(2)));
+            if (got.size() >= 1 && !(got.size() == 2 && got[0] == -7777.0) &&
+                (op.kind == "fft" || op.kind == "ifft" || op.kind == "rfft" || op.kind == "irfft" || (op.kind == "mkplan" && op.iarg(1) != PK_CZT))) {
+                const std::string rk = (op.kind == "mkplan") ? fmt("mkplan %lld %lld", static_cast<long long>(op.iarg(1)), static_cast<long long>(op.iarg(2)))
+                                                             : fmt("%s %lld", op.kind.c_str(), static_cast<long long>(op.iarg(0)));
+                if (md.first_id >= 0) {
+                    md.learned[rk] = {md.first_id, md.first_n};   // the request consulted a cache: the events are authoritative
+                } else {
+                    const auto it = md.learned.find(rk);
+                    if (it != md.learned.end()) {
+                        md.request(it->second.first, it->second.second);   // answered without consulting any cache: still a use
+                    }
                 }
             }
             lockstep("after the request");
